@@ -37,6 +37,11 @@ LookupOK(e) == IF Owners(e) = {} THEN e.ret = 99 ELSE e.ret + 1 \in Owners(e)
 ToldOK(e) == /\ IsAddr(e.told) /\ e.told = e.slot
              /\ InSubnet(e.told, e.srv, e.mask) /\ e.told # e.srv /\ ~IsNetwork(e.told, e.mask) /\ ~IsBroadcast(e.told, e.mask)
              /\ e.toldsrv = e.srv
+\* e = [mask, created, told]: the sessions the server can create (version requests acknowledged until it reports "full")
+\* after requests that create none (wrong protocol version, malformed version requests), and the distinct addresses the
+\* logins of those sessions were told
+CapacityOK(e) == /\ e.created = Min(16, P2(32 - e.mask) - 3)
+                 /\ e.told = e.created
 \* the server refuses netmasks outside 8..30
 RangeOK(e) == e.started <=> (e.mask >= 8 /\ e.mask <= 30)
 
